@@ -550,7 +550,7 @@ func reverseCase(c *h.Case, kind string, providers, n int) {
 	var provs []*reverse.Provider
 	for p := 0; p < providers; p++ {
 		client := srv.NewClient()
-		client.Timeout = 5 * time.Second
+		client.Timeout = 10 * time.Minute // the provider's poll must not give up on the client side: a call handed to an abandoned poll is lost by design
 		pid := fmt.Sprintf("prov-%d", p)
 		prov := reverse.NewProvider(client, pid)
 		prov.RetryInterval = 10 * time.Millisecond
@@ -563,7 +563,7 @@ func reverseCase(c *h.Case, kind string, providers, n int) {
 	}
 	defer func() {
 		for _, p := range provs {
-			go p.Close()
+			closeProvider(p)
 		}
 	}()
 	// wait until every provider is listening (first begin registered)
@@ -638,12 +638,12 @@ func reverseIdle(c *h.Case, kind string) {
 	}
 	defer srv.Close()
 	client := srv.NewClient()
-	client.Timeout = 5 * time.Second
+	client.Timeout = 10 * time.Minute // the provider's poll must not give up on the client side: a call handed to an abandoned poll is lost by design
 	prov := reverse.NewProvider(client, "idle-prov")
 	prov.RetryInterval = 10 * time.Millisecond
 	prov.AddFunction(func(id string) string { return "did " + id }, "work")
 	go prov.Listen()
-	defer func() { go prov.Close() }()
+	defer closeProvider(prov)
 	for i := 0; i < 500 && !caller.Exists("idle-prov"); i++ {
 		time.Sleep(10 * time.Millisecond)
 	}
@@ -729,7 +729,7 @@ func reverseStray(c *h.Case, kind string) {
 			time.Sleep(2 * time.Millisecond)
 		}
 		client := srv.NewClient()
-		client.Timeout = 5 * time.Second
+		client.Timeout = 10 * time.Minute // the provider's poll must not give up on the client side: a call handed to an abandoned poll is lost by design
 		prov := reverse.NewProvider(client, "p")
 		prov.RetryInterval = 10 * time.Millisecond
 		prov.AddFunction(func(id string) string {
@@ -754,9 +754,21 @@ func reverseStray(c *h.Case, kind string) {
 				c.Violation("caller-never-returned:reverse-stray:"+kind, fmt.Sprintf("call %d still pending", i), rep)
 			}
 		}
-		go prov.Close()
+		closeProvider(prov)
 		srv.Close()
 		r.Distinct(fmt.Sprintf("reverse-stray|%s|%d", kind, n))
+	}
+}
+
+
+// closeProvider stops a provider and waits (bounded) until its poll has ended, so that the
+// server can be closed afterwards: the mock server cannot be closed while a poll is parked in it.
+func closeProvider(p *reverse.Provider) {
+	done := make(chan struct{})
+	go func() { p.Close(); close(done) }()
+	select {
+	case <-done:
+	case <-time.After(5 * time.Second):
 	}
 }
 
